@@ -14,7 +14,7 @@ from ..model import Undecided
 from ..cfg import (dotted, call_name, is_call, simple_name, unparse, const_value, contains, find_all, enclosing,
                    enclosing_stmt, implied, all_atoms)
 from ..flow import Canon, Defs, depends, consteval, try_const, NotConst, fmt_all_numeric
-from ..decide import expr_table
+from ..decide import expr_table, table, ret_kind
 from ..util import (calls_to, call_targets, str_variants, HOLE, keyword, returns_of, calls_in, poly_coeffs, inside, order_key)
 
 NOT_DECIDED = ('history semantics: latest store wins, isolation of interleaved operations, actual bytes on disk, '
@@ -1042,25 +1042,33 @@ def c05l(ctx):
     for m in ('load_tiles', 'store_tiles'):
         f = ctx.fn('%s:CompactCacheBase.%s' % (COMPACT, m))
         g = f.cfg
-        adds = [x for x in f.walk() if is_call(x, 'bundle_files.add')]
+        # the set of bundle files: whatever local receives .add(<bundle file name>)
+        adds = [x for x in f.walk() if isinstance(x, ast.Call) and isinstance(x.func, ast.Attribute) and x.func.attr == 'add' and
+                isinstance(x.func.value, ast.Name) and x.args]
+        cfm = Canon(f)
+        keyed = [x for x in adds if contains(cfm.expr(x.args[0]), lambda y: is_call(y, 'self._get_bundle_fname_and_offset'))]
+        S = keyed[0].func.value.id if keyed else 'bundle_files'
+        adds = [x for x in adds if x.func.value.id == S]
         ok = bool(adds)
-        fdefs = Defs(f.node)
         for x in adds:
-            a = x.args[0]
-            if isinstance(a, ast.Name):
-                d = fdefs.single(a.id)
-                if d and d[1] == 0 and is_call(d[0], 'self._get_bundle_fname_and_offset'):
-                    a = ast.Subscript(value=d[0], slice=ast.Constant(value=0), ctx=ast.Load())
-                elif d and d[1] is None:
-                    a = d[0]
+            a = cfm.expr(x.args[0])
             ok = ok and isinstance(a, ast.Subscript) and const_value(a.slice) == 0 and is_call(a.value, 'self._get_bundle_fname_and_offset') and \
                 unparse(a.value.args[0]).endswith('coord')
         ctx.check(ok, 'CompactCacheBase.%s:shortcut-key' % m, 'the single-bundle shortcut collects bundle file names (level + bundle origin) of all tiles', f,
                   fail='the single-bundle shortcut is not keyed by the bundle file name: tiles of different levels/bundles are sent to one bundle')
-        sc = g.find(lambda x: is_call(x, 'self._get_bundle') and isinstance(getattr(x, '_parent', None), ast.Attribute))
-        sc = [(n, x) for n, x in sc if simple_name(getattr(x._parent, '_parent', None)) == m]
-        ok = bool(sc) and all(g.guarded(n, lambda at: at.op == '==' and 'len(bundle_files)' in at.text and '1' in at.text, True) for n, x in sc)
-        ctx.check(ok, 'CompactCacheBase.%s:shortcut-guard' % m, 'the shortcut is taken only when exactly one bundle file is involved', f)
+
+        def ev(st, m=m):
+            if isinstance(st, (ast.Return, ast.Expr, ast.Assign)) and contains(st, lambda x: is_call(x, 'self._get_bundle')) and \
+                    contains(st, lambda x: isinstance(x, ast.Call) and isinstance(x.func, ast.Attribute) and x.func.attr == m and
+                             is_call(x.func.value, 'self._get_bundle')):
+                return 'shortcut'
+            return None
+        tab = ctx.rows(table(f.node.body, ret_kind, event_of=ev))
+        one = [t for t in tab.atoms if tab.atom_objs[t].op == '==' and 'len(%s)' % S in t and
+               1 in (const_value(tab.atom_objs[t].left), const_value(tab.atom_objs[t].right))]
+        taken = [asg for asg, out, events in tab.assignments() if 'shortcut' in events]
+        ok = len(one) == 1 and bool(taken) and all(asg[one[0]] for asg in taken)
+        ctx.check(ok, 'CompactCacheBase.%s:shortcut-guard' % m, 'the shortcut is taken only when exactly one bundle file is involved (%d rows)' % len(tab.rows), f)
         fb = [x for x in f.walk() if is_call(x, 'self.load_tile' if m == 'load_tiles' else 'self.store_tile')]
         ok = bool(fb) and all(isinstance(enclosing(x, ast.For), ast.For) and unparse(enclosing(x, ast.For).iter) == 'tiles' for x in fb)
         ctx.check(ok, 'CompactCacheBase.%s:fallback-per-tile' % m, 'otherwise every tile is handled individually', f)
